@@ -173,7 +173,30 @@ def _apply(clo, arg):
 _LAZY_ARGS = {"then": (1,), "ok_or": (1,), "search": (1, 2, 3), "vec+": tuple(range(64))}
 
 
-def _float(t):
+def _finish_returns(t, top):
+    """guard clauses that ended up at the top of a fn / closure body only after floating are an if / else chain as well"""
+    def conv(b):
+        for _ in range(8):
+            if b[0] == "early" and b[1] and all(v[0] == "ret" and c != ("lit", "match") for c, v in b[1]):
+                e2, tail = _guards_to_try(b[1], b[2])
+                b = _unreturn(("early", e2, tail)) if e2 else tail
+            elif b[0] == "early" and b[2][0] == "early":
+                b = ("early", list(b[1]) + list(b[2][1]), b[2][2])       # consecutive guard clauses are one list
+            else:
+                break
+        return b
+
+    def clo(n):
+        if n[0] == "closure":
+            nb = conv(n[3])
+            if nb is not n[3]:
+                return ("closure", n[1], n[2], nb)
+        return None
+    t = rewrite(t, clo)
+    return conv(t) if top else t
+
+
+def _float(t, top=False):
     """effects of a `{s; v}` in a strictly evaluated position (argument, operand, scrutinee, condition) move to the enclosing
     sequence: `f(a, {s; v})` is `{s; f(a, v)}`. Conditionally evaluated positions (branches, loop bodies, closure bodies,
     right operands of && / ||, lazily evaluated arguments) keep their effects."""
@@ -184,7 +207,11 @@ def _float(t):
         def take(x, lazy=False):
             if x[0] == "seq" and not lazy:
                 effs.extend(x[1])
-                return x[2]
+                return take(x[2])
+            if x[0] == "early" and not lazy and all(_diverges(v) for _c, v in x[1]):
+                # f(.. if c { return d } v ..)  leaves before f is applied:  the guard clause moves out, f applies to v
+                effs.append(("earlymark", x[1]))
+                return take(x[2])
             return x
         if k == "call":
             lazy = _LAZY_ARGS.get(n[1], ())
@@ -246,13 +273,31 @@ def _float(t):
         for x in effs:
             if x not in uniq:
                 uniq.append(x)
-        return lift(("seq", uniq, r)) or ("seq", uniq, r)
-    return rewrite(t, lift)
+        # rebuild from the inside out: plain effects form a sequence, guard clauses wrap what follows them
+        res = r
+        pending = []
+        for x in reversed(uniq):
+            if x[0] == "earlymark":
+                if pending:
+                    res = ("seq", list(reversed(pending)), res)
+                    pending = []
+                res = ("early", list(x[1]), res)
+            else:
+                pending.append(x)
+        if pending:
+            res = ("seq", list(reversed(pending)), res)
+        return lift(res) or res
+    out = rewrite(t, lift)
+    return _finish_returns(out, top)
 
 
 def _not(c):
     if c[0] == "op" and c[1] == "Not" and len(c[2]) == 1:
         return c[2][0]
+    if c[0] == "iflet-not":
+        return ("iflet", c[1], c[2])
+    if c[0] == "iflet":
+        return ("iflet-not", c[1], c[2])
     if c[0] == "op" and c[1] in ("==", "!=") and len(c[2]) == 2:
         return ("op", "!=" if c[1] == "==" else "==", c[2])
     return ("op", "Not", [c])
@@ -262,6 +307,8 @@ def _mk_if(c, t, e):
     """if c {t} else {e} with the boolean identities applied"""
     if c[0] == "op" and c[1] == "Not" and len(c[2]) == 1:
         return _mk_if(c[2][0], e, t)
+    if c[0] == "iflet-not":
+        return _mk_if(("iflet", c[1], c[2]), e, t)
     if c[0] == "op" and c[1] == "!=" and len(c[2]) == 2 and not _diverges(t) and not _diverges(e):
         return _mk_if(("op", "==", c[2]), e, t)
     if _diverges(e) and not _diverges(t) and not _is_unit(t):
@@ -374,6 +421,7 @@ class Norm:
         while isinstance(fb, dict) and fb.get("k") in ("DropTemps", "Use"):
             fb = fb["e"]
         self._fn_block = fb if isinstance(fb, dict) else None
+        self._strip_early = set()
         self._loop_blocks = set()      # bodies of `for` loops: `continue` leaves exactly that block
         self._ret_blocks = {id(fb)} if isinstance(fb, dict) else set()      # blocks whose `return` / `?` leave exactly that block: fn and closure bodies
         self.def_ctx = {}    # local id -> (closure depth, guards) at its `let`
@@ -601,11 +649,11 @@ class Norm:
             memo = self._memo
             self._memo = {}
             try:
-                return _float(self._t(e))
+                return _float(self._t(e), e is self.body.get("body"))
             finally:
                 self.syms = old
                 self._memo = memo
-        return _float(self._t(e))
+        return _float(self._t(e), e is self.body.get("body"))
 
     def local_term(self, lid):
         if lid in self.syms:
@@ -627,6 +675,8 @@ class Norm:
                 base = ("cparam", origin[1], origin[2])
             elif o == "let":
                 base = self._t(origin[1])
+                if id(origin[1]) in self._strip_early and base[0] == "early":
+                    base = base[2]          # its guard clauses were emitted by the enclosing block
             elif o == "elem":
                 base = ("elem", self._t(origin[1]))
             else:
@@ -1281,6 +1331,12 @@ class Norm:
                         et = self._t(inner)
                         if not _is_unit(et) and not _diverges(et):
                             effs.append(et)
+                elif sk == "SLet" and "init" in st and "els" not in st and _may_diverge(st["init"]):
+                    # let x = match y { Some(v) => v, None => return d };   is a guard clause of the block, then x = the value
+                    it = self._t(st["init"])
+                    if it[0] == "early" and it[1] and all(_diverges(v) for _c, v in it[1]) and not any(c == ("lit", "match") for c, _v in it[1]):
+                        early.extend(it[1])
+                        self._strip_early.add(id(st["init"]))
                 elif sk == "SLet" and "els" in st:
                     lc = _let(pat_repr(st["pat"]), self._t(st["init"]))
                     if lc[0] == "iflet":
@@ -1809,6 +1865,15 @@ def _continue_guard(st):
     elif sk == "SLet" and "els" in st and _only_continue(st["els"]):
         return ("arm", st["init"], pat_repr(st["pat"]))
     return None
+
+
+def _may_diverge(node):
+    """the expression contains a return / break / continue outside closures"""
+    for n in walk(node, False):
+        if n.get("k") in ("Ret", "Break", "Continue"):
+            if not any(True for _ in ()):
+                return True
+    return False
 
 
 def _has_other_exit(body):
